@@ -211,6 +211,10 @@ def pySlice (v : V) (a : Int) (b : Option Int) : R (List V) :=
 /-- `v[key]` for a string key (TypedDict, named tuple as dict, discriminator). -/
 def pyGetItemStr (v : V) (key : String) : R V :=
   match v with
+  | .coll .chainmap maps =>
+      match chainLookup maps (V.str key) with
+      | some x => .ok x
+      | none => raisePy .keyError
   | .map o kvs =>
       match kvs.find? (fun kv => kv.1 == V.str key) with
       | some kv => .ok kv.2
@@ -221,6 +225,7 @@ def pyGetItemStr (v : V) (key : String) : R V :=
 /-- `v.get(key, MISSING)`; `none` = MISSING. -/
 def pyGetStr (v : V) (key : String) : R (Option V) :=
   match v with
+  | .coll .chainmap maps => .ok (chainLookup maps (V.str key))
   | .map _ kvs => .ok ((kvs.find? (fun kv => kv.1 == V.str key)).map (·.2))
   | _ => raisePy .attributeError
 
